@@ -745,3 +745,33 @@ func init() {
 			Opts: vrt.Options{Delay: true}, Run: bWakeAfterCommit(v.cd), Check: bufferCheckSig(defaultPolicy, "lost-wakeup")})
 	}
 }
+
+// B-diff: Diff polled by a second goroutine while the consumer's owner reads, commits and rolls back.
+func bDiff() {
+	h := newBufH(0, nil)
+	c := h.newC()
+	h.put(0, nil, 1, 2, 3)
+	var wg sync.WaitGroup
+	wg.Add(2)
+	go func() {
+		defer wg.Done()
+		c.get(0, nil)
+		c.commit()
+		c.get(0, nil)
+		c.rollback()
+	}()
+	go func() {
+		defer wg.Done()
+		h.diff(c)
+		h.diff(c)
+		h.diff(c)
+	}()
+	wg.Wait()
+	h.finish(c)
+}
+
+func init() {
+	vrt.Register(&vrt.Scenario{Name: "B-diff", Props: []string{"C03", "C11:race", "C12:goroutine-leak,close-"}, Quick: 2, Thorough: 3,
+		Desc: "Diff polled from a second goroutine while the owner of the consumer reads, commits and rolls back",
+		Opts: vrt.Options{Delay: true}, Run: bDiff, Check: bufferCheck(defaultPolicy)})
+}
